@@ -44,3 +44,19 @@ def last_effective(block):
     """Last statement of a block that is not an inert trailer."""
     c = core(block)
     return c[-1] if c else None
+
+
+def else_part(fn_node, ifnode):
+    """What runs when the test of *ifnode* is false: its else block if it has
+    one, otherwise (its body always leaving) the statements that follow it in
+    its block.  The loader normalises `if c: <leaves> else: B` to the second
+    form, so rules ask through this helper."""
+    if ifnode.orelse:
+        return ifnode.orelse
+    for n in ast.walk(fn_node):
+        for fld in ("body", "orelse", "finalbody"):
+            blk = getattr(n, fld, None)
+            if isinstance(blk, list) and any(x is ifnode for x in blk):
+                i = [k for k, x in enumerate(blk) if x is ifnode][0]
+                return blk[i + 1:]
+    return []
